@@ -65,7 +65,12 @@ fn generate_error_definitions(
                 let comments = utils::extract_doc_comments(&variant.attrs);
                 let comment_objects = shared::generate_comment_objects(&comments, crate_path);
                 let error_variant = quote! {
-                    &#crate_path::idl::Error::new(#variant_name, &[], &[#(#comment_objects),*])
+                    &{
+                        static COMMENTS: &[&#crate_path::idl::Comment<'static>] =
+                            &[#(#comment_objects),*];
+
+                        #crate_path::idl::Error::new(#variant_name, &[], COMMENTS)
+                    }
                 };
                 error_variants.push(error_variant);
             }
@@ -86,8 +91,10 @@ fn generate_error_definitions(
                         static FIELD_REFS: &[&#crate_path::idl::Field<'static>] = &[
                             #(#field_refs),*
                         ];
+                        static COMMENTS: &[&#crate_path::idl::Comment<'static>] =
+                            &[#(#comment_objects),*];
 
-                        #crate_path::idl::Error::new(#variant_name, FIELD_REFS, &[#(#comment_objects),*])
+                        #crate_path::idl::Error::new(#variant_name, FIELD_REFS, COMMENTS)
                     }
                 };
                 error_variants.push(error_variant);
@@ -106,12 +113,15 @@ fn generate_error_definitions(
                 let comment_objects = shared::generate_comment_objects(&comments, crate_path);
                 let error_variant = quote! {
                     &{
+                        static COMMENTS: &[&#crate_path::idl::Comment<'static>] =
+                            &[#(#comment_objects),*];
+
                         match <#field_type as #crate_path::introspect::Type>::TYPE {
                             #crate_path::idl::Type::Object(fields) => {
                                 let #crate_path::idl::List::Borrowed(field_slice) = fields else {
                                     panic!("Owned List not supported in const context")
                                 };
-                                #crate_path::idl::Error::new(#variant_name, field_slice, &[#(#comment_objects),*])
+                                #crate_path::idl::Error::new(#variant_name, field_slice, COMMENTS)
                             }
                             _ => panic!("Tuple variant field type must have Type::Object"),
                         }
